@@ -89,6 +89,7 @@ func newWorld(run *evid.Run, sel bool, pol policy) *world {
 	}
 	w.wrapped = model.NewEnv(reg)
 	w.twin = model.NewEnv(ocimem.New())
+	w.wrapped.Reiterate, w.twin.Reiterate = true, true // listing sequences are ranged over twice
 	return w
 }
 
